@@ -43,6 +43,46 @@ Relation(a, b, c, d) ==
          [kind |-> "point", proper |-> FALSE,
           at |-> IF OnSeg(a, c, d) THEN a ELSE IF OnSeg(b, c, d) THEN b ELSE IF OnSeg(c, a, b) THEN c ELSE d]
 
+-----------------------------------------------------------------------------
+\* Implementation-shaped model: the decision tree of line_intersection (geo/src/algorithm/line_intersection.rs), one
+\* named branch per return site.  p = [a,b], q = [c,d].  Hook H5 reports the branch the code took; TreeRefines (checked by
+\* TLC on every state) says the tree computes the abstract Relation, so a case exercises the code's branch AND its result.
+BoxesMeet(a, b, c, d) == /\ Max2(Min2(a[1], b[1]), Min2(c[1], d[1])) <= Min2(Max2(a[1], b[1]), Max2(c[1], d[1]))
+                         /\ Max2(Min2(a[2], b[2]), Min2(c[2], d[2])) <= Min2(Max2(a[2], b[2]), Max2(c[2], d[2]))
+Improper(x) == [kind |-> "point", proper |-> FALSE, at |-> x]
+CollinearOf(x, y) == IF x = y THEN Improper(x) ELSE [kind |-> "collinear", lo |-> x, hi |-> y]
+CollinearArms(a, b, c, d) ==
+    LET qs == InBox(c, a, b)  qe == InBox(d, a, b)  ps == InBox(a, c, d)  pe == InBox(b, c, d) IN
+    IF qs /\ qe THEN [branch |-> "col1", res |-> CollinearOf(c, d)]
+    ELSE IF ps /\ pe THEN [branch |-> "col2", res |-> CollinearOf(a, b)]
+    ELSE IF qs /\ ~qe /\ ps /\ ~pe /\ c = a THEN [branch |-> "col3", res |-> Improper(c)]
+    ELSE IF qs /\ ps THEN [branch |-> "col4", res |-> CollinearOf(c, a)]
+    ELSE IF qs /\ ~qe /\ ~ps /\ pe /\ c = b THEN [branch |-> "col5", res |-> Improper(c)]
+    ELSE IF qs /\ pe THEN [branch |-> "col6", res |-> CollinearOf(c, b)]
+    ELSE IF ~qs /\ qe /\ ps /\ ~pe /\ d = a THEN [branch |-> "col7", res |-> Improper(d)]
+    ELSE IF qe /\ ps THEN [branch |-> "col8", res |-> CollinearOf(d, a)]
+    ELSE IF ~qs /\ qe /\ ~ps /\ pe /\ d = b THEN [branch |-> "col9", res |-> Improper(d)]
+    ELSE IF qe /\ pe THEN [branch |-> "col10", res |-> CollinearOf(d, b)]
+    ELSE [branch |-> "col_none", res |-> [kind |-> "none"]]
+Decide(a, b, c, d) ==
+    LET o1 == Orient(a, b, c)  o2 == Orient(a, b, d)  o3 == Orient(c, d, a)  o4 == Orient(c, d, b) IN
+    IF ~BoxesMeet(a, b, c, d) THEN [branch |-> "env_disjoint", res |-> [kind |-> "none"]]
+    ELSE IF o1 = o2 /\ o1 # 0 THEN [branch |-> "q_one_side", res |-> [kind |-> "none"]]
+    ELSE IF o3 = o4 /\ o3 # 0 THEN [branch |-> "p_one_side", res |-> [kind |-> "none"]]
+    ELSE IF o1 = 0 /\ o2 = 0 /\ o3 = 0 /\ o4 = 0 THEN CollinearArms(a, b, c, d)
+    ELSE IF o1 = 0 \/ o2 = 0 \/ o3 = 0 \/ o4 = 0 THEN
+         IF a = c \/ a = d THEN [branch |-> "ep_shared_pstart", res |-> Improper(a)]
+         ELSE IF b = c \/ b = d THEN [branch |-> "ep_shared_pend", res |-> Improper(b)]
+         ELSE IF o1 = 0 THEN [branch |-> "ep_qstart", res |-> Improper(c)]
+         ELSE IF o2 = 0 THEN [branch |-> "ep_qend", res |-> Improper(d)]
+         ELSE IF o3 = 0 THEN [branch |-> "ep_pstart", res |-> Improper(a)]
+         ELSE [branch |-> "ep_pend", res |-> Improper(b)]
+    ELSE [branch |-> "proper", res |-> [kind |-> "point", proper |-> TRUE]]
+SameResult(r, t) ==
+    /\ r.kind = t.kind
+    /\ r.kind = "collinear" => {r.lo, r.hi} = {t.lo, t.hi}
+    /\ r.kind = "point" => (r.proper = t.proper /\ (~r.proper => r.at = t.at))
+
 VARIABLES ia, ib, ic, id
 vars == <<ia, ib, ic, id>>
 NG == (K + 1) * (K + 1)
@@ -50,6 +90,7 @@ Init == /\ ia \in {i \in 1 .. NG : i % Stride = Offset % Stride} /\ ib \in 1 .. 
 Next == /\ ic = 0 /\ ia' = ia /\ ib' = ib /\ ic' \in 1 .. NG /\ id' \in 1 .. NG
         /\ PrintT(<<"CASE", ToJson([op |-> "segseg", a |-> GridSeq[ia], b |-> GridSeq[ib], c |-> GridSeq[ic'], d |-> GridSeq[id'],
                                    rel |-> Relation(GridSeq[ia], GridSeq[ib], GridSeq[ic'], GridSeq[id']),
+                                   branch |-> Decide(GridSeq[ia], GridSeq[ib], GridSeq[ic'], GridSeq[id']).branch,
                                    o1 |-> Orient(GridSeq[ia], GridSeq[ib], GridSeq[ic']), o2 |-> Orient(GridSeq[ia], GridSeq[ib], GridSeq[id'])])>>)
 Spec == Init /\ [][Next]_vars
 
@@ -63,4 +104,9 @@ RelLaws == ic > 0 =>
     /\ (r.kind = "point" /\ ~r.proper) => (r.at = r2.at /\ r.at = r3.at)
     /\ (r.kind = "point" /\ r.proper) => (RatEq(r.x, r2.x) /\ RatEq(r.y, r2.y))
     /\ (r.kind = "none") = ~SegSegMeet(a, b, c, d)
+\* the decision tree refines the abstract relation, in both argument orders
+TreeRefines == ic > 0 =>
+    LET a == GridSeq[ia] b == GridSeq[ib] c == GridSeq[ic] d == GridSeq[id] IN
+    /\ SameResult(Relation(a, b, c, d), Decide(a, b, c, d).res)
+    /\ SameResult(Relation(a, b, c, d), Decide(c, d, a, b).res)
 =============================================================================
